@@ -152,6 +152,8 @@ def run(out, replay_path=None):
             out.violations.append({'key': None, 'what': hit[0]['detail'], 'scenario': sc, 'native': hit})
         return
     prog, dinfo = dump.dump_mir()
+    from . import writer_model as _wm
+    _wm.field_order_check(prog)
     thorough = out.tier == 'thorough'
     findings, npaths, stats = [], 0, []
     cap = z3.BitVec('cap', 64)
@@ -174,6 +176,27 @@ def run(out, replay_path=None):
         raise Unsupported('mutex schedule model: reach=%s bad=%s' % (reach, bad))
     if bad == 'sat':
         findings.append({'clause': 'mutual-exclusion', 'detail': 'the schedule model admits overlapping sections (model error)'})
+    # (b') a queuing sink in front of the buffered sink keeps each thread's order only while the worker is the single
+    # consumer of the queue: no caller-side program (emit, clone, drop, flush, stats) may take entries off the channel
+    from . import queue_model as qm
+    qfind = []
+    x = qm.Extraction(prog, 'bounded', True)
+    for w in ('emit', 'clone', 'drop', 'flush', 'stats'):
+        try:
+            P = x.run_program(w)
+        except Unsupported as e:
+            if 'loop' not in str(e):
+                raise
+            # caller-side programs are loop-free on the pinned tree; a loop here is almost certainly one over the queue
+            qfind.append({'clause': 'queue-single-consumer', 'detail': 'QueuingMetricSink::%s contains a loop (%s): caller-side programs must not iterate over the queue' % (w, str(e)[:120])})
+            continue
+        npaths += len(P.paths)
+        for ops, leaf in P.paths:
+            taken = [o['kind'] for o in ops if o['kind'] in ('recv', 'try_recv') and o.get('out') in ('some', None)]
+            if taken:
+                qfind.append({'clause': 'queue-single-consumer', 'detail': 'QueuingMetricSink::%s takes entries off the queue on the calling thread (%s): a second consumer can overtake the worker' % (w, [qm.fmt_op(o) for o in ops])})
+                break
+    stats += x.stats
     # (c) the sequential judge
     from . import check_writer
     from .checks import Outcome
@@ -205,8 +228,17 @@ def run(out, replay_path=None):
             out.violations.append(v)
         return
     out.inconclusive += sub.inconclusive
+    if qfind:
+        sc = {'kind': 'queue-second-consumer'}
+        o = replay.run_scenarios([sc], timeout=120)[0]
+        out.evidence['coverage']['traces_validated_against_impl'] += 1
+        hit = [v for v in o.get('violations', []) if v['prop'] == pid]
+        if hit:
+            out.violations.append({'key': 'c12:queue-single-consumer', 'what': '%s; native: %s' % (qfind[0]['detail'][:300], hit[0]['detail'][:300]), 'scenario': sc, 'native': hit})
+            return
+        out.inconclusive.append('%s - not reproduced natively' % qfind[0]['detail'][:400])
     if findings:
-        sc = {'kind': 'c12-stress', 'threads': 8}
+        sc = {'kind': 'c12-stress', 'threads': 8, 'sink_ty': findings[0].get('sink', '')}
         o = replay.run_scenarios([sc], timeout=300)[0]
         out.evidence['coverage']['traces_validated_against_impl'] += 1
         hit = [v for v in o.get('violations', []) if v['prop'] == pid]
